@@ -3,7 +3,7 @@
   equal the formulas the encoder cites offsets with, every out-of-band group sits at its cited
   offset, the directory serves the core stream of each type (extras of the same type are overridden).
 -/
-import MdProofs.Lemmas.EncodeMaps
+import MdProofs.Lemmas.EncodeCrashpad
 import MdProofs.Lemmas.BytesStreams
 namespace MdModel.Encode
 open MdModel MdModel.Dump MdModel.Gen.Layouts MdModel.Gen.LayoutsC02
@@ -89,6 +89,9 @@ theorem encSysInfo_length (e : Endian) (off : Nat) (x : MSysInfo) : (encSysInfo 
 theorem encMiscInfo_length (e : Endian) (x : MMiscInfo) : (encMiscInfo e x).length = miscInfoSize x := by
   simp [encMiscInfo, miscInfoSize]
 
+theorem encCrashpad_length (e : Endian) (off : Nat) (x : MCrashpad) : (encCrashpad e off x).length = 52 := by
+  simp only [encCrashpad, encFields_length]; decide
+
 theorem encHandleData_length (e : Endian) (off : Nat) (x : MHandleData) : (encHandleData e off x).length = handleDataSize x := by
   simp [encHandleData, handleDataSize, handleRecs_length, handleLayout_size,
     show Layout.size MINIDUMP_HANDLE_DATA_STREAM = 16 by decide, Nat.mul_comm]
@@ -99,7 +102,7 @@ theorem coreStreams_sizes (m : DumpModel) (e : Endian) (f : MemForm) :
   unfold coreStreams coreStreamSizes
   simp only [List.map_append, List.map_cons, List.map_nil, optList_map, encThreadList_length, encModuleList_length,
     encMemInfoList_length, encThreadNames_length, encUnloadedList_length, encException_length, encSysInfo_length,
-    encMiscInfo_length, encHandleData_length]
+    encMiscInfo_length, encHandleData_length, encCrashpad_length]
   cases f <;> simp only [encMemoryList_length, encMemory64List_length]
 
 theorem allStreams_sizes (m : DumpModel) (e : Endian) (f : MemForm) :
@@ -129,6 +132,7 @@ structure OobPlaced (b : Bytes) (m : DumpModel) (e : Endian) (f : MemForm) : Pro
   exc : Has b.toList (oobOffsets m f).exc (excCtx m)
   csd : Has b.toList (oobOffsets m f).csd (csdString e m)
   handles : Has b.toList (oobOffsets m f).handles (handlesOob e (oobOffsets m f).handles m)
+  crashpad : Has b.toList (oobOffsets m f).crashpad (crashpadOob e (oobOffsets m f).crashpad m)
   size : b.size = (oobOffsets m f).stop
 
 theorem Has.at {l : List UInt8} {o o' : Nat} {c : List UInt8} (h : Has l o c) (ho : o = o') : Has l o' c := ho ▸ h
@@ -139,22 +143,27 @@ theorem csdString_length (e : Endian) (m : DumpModel) : (csdString e m).length =
 theorem handlesOob_length (e : Endian) (off : Nat) (m : DumpModel) : (handlesOob e off m).length = handlesOobSize m := by
   unfold handlesOob handlesOobSize; cases m.handles <;> simp [oobHandles_length]
 
+theorem crashpadOob_length (e : Endian) (off : Nat) (m : DumpModel) : (crashpadOob e off m).length = crashpadOobSize m := by
+  unfold crashpadOob crashpadOobSize; cases m.crashpad <;> simp [crashpadOobOf_length]
+
 /-- **offset bookkeeping for the out-of-band data** -/
 theorem oob_placed (m : DumpModel) (e : Endian) (f : MemForm) : OobPlaced (encode m e f) m e f := by
   have h0 : Has (encode m e f).toList (oobStart m f) (oobAll m e f) :=
     ⟨encodeStreams e m.flags (allStreams m e f), [], by simp [encodeList_eq], encodeStreams_all_length m e f⟩
   unfold oobAll oobAllAt at h0
-  have hH := h0.right
-  have hG := h0.left.right
-  have hF := h0.left.left.right
-  have hE := h0.left.left.left.right
-  have hD := h0.left.left.left.left.right
-  have hC := h0.left.left.left.left.left.right
-  have hB := h0.left.left.left.left.left.left.right
-  have hA := h0.left.left.left.left.left.left.left
+  have hI := h0.right
+  have hH := h0.left.right
+  have hG := h0.left.left.right
+  have hF := h0.left.left.left.right
+  have hE := h0.left.left.left.left.right
+  have hD := h0.left.left.left.left.left.right
+  have hC := h0.left.left.left.left.left.left.right
+  have hB := h0.left.left.left.left.left.left.left.right
+  have hA := h0.left.left.left.left.left.left.left.left
   simp only [List.length_append, oobThreads_length, oobModules_length, oobMemory_length, oobNames_length,
-    csdString_length] at hB hC hD hE hF hG hH
-  refine ⟨hA, hB, hC.at ?_, hD.at ?_, hE.at ?_, hF.at ?_, hG.at ?_, hH.at ?_, ?_⟩
+    csdString_length, handlesOob_length] at hB hC hD hE hF hG hH hI
+  refine ⟨hA, hB, hC.at ?_, hD.at ?_, hE.at ?_, hF.at ?_, hG.at ?_, hH.at ?_, hI.at ?_, ?_⟩
+  · simp only [oobOffsets]; omega
   · simp only [oobOffsets]; omega
   · simp only [oobOffsets]; omega
   · simp only [oobOffsets]; omega
@@ -163,7 +172,7 @@ theorem oob_placed (m : DumpModel) (e : Endian) (f : MemForm) : OobPlaced (encod
   · simp only [oobOffsets]; omega
   · have := congrArg List.length (encodeList_eq m e f)
     simp only [Array.length_toList, List.length_append, encodeStreams_all_length, oobAll, oobAllAt, oobThreads_length,
-      oobModules_length, oobMemory_length, oobNames_length, csdString_length, handlesOob_length] at this
+      oobModules_length, oobMemory_length, oobNames_length, csdString_length, handlesOob_length, crashpadOob_length] at this
     rw [this]
     simp only [oobOffsets]
     omega
@@ -218,6 +227,7 @@ structure WellFormed (m : DumpModel) (f : MemForm) : Prop where
   miscInfo : ∀ x, m.miscInfo = some x → MiscFits x
   handles : ∀ x, m.handles = some x → ∀ h ∈ x.handles, HandleFits h
   linuxMaps : ∀ x, m.linuxMaps = some x → ∀ en ∈ x, MapEntryFits en
+  crashpad : ∀ x, m.crashpad = some x → CrashpadFits x
   extra : ∀ x ∈ m.extra, x.1 ∈ coreTypes m f
 
 /-- the types of the six streams always present -/
@@ -227,12 +237,14 @@ def fixedTypes (f : MemForm) : List Nat :=
 
 /-- every type the encoder can emit, in its order -/
 def allTypes (f : MemForm) : List Nat :=
-  fixedTypes f ++ [ST_EXCEPTION] ++ [ST_SYSTEM_INFO] ++ [ST_MISC_INFO] ++ [ST_HANDLE_DATA_STREAM] ++ [ST_LINUX_MAPS]
+  fixedTypes f ++ [ST_EXCEPTION] ++ [ST_SYSTEM_INFO] ++ [ST_MISC_INFO] ++ [ST_HANDLE_DATA_STREAM] ++ [ST_LINUX_MAPS] ++
+    [ST_CRASHPAD]
 
 theorem coreTypes_eq (m : DumpModel) (f : MemForm) :
     coreTypes m f = fixedTypes f ++ optList m.exception (fun _ => ST_EXCEPTION) ++
       optList m.sysInfo (fun _ => ST_SYSTEM_INFO) ++ optList m.miscInfo (fun _ => ST_MISC_INFO) ++
-      optList m.handles (fun _ => ST_HANDLE_DATA_STREAM) ++ optList m.linuxMaps (fun _ => ST_LINUX_MAPS) := by
+      optList m.handles (fun _ => ST_HANDLE_DATA_STREAM) ++ optList m.linuxMaps (fun _ => ST_LINUX_MAPS) ++
+      optList m.crashpad (fun _ => ST_CRASHPAD) := by
   unfold coreTypes coreStreamSizes fixedTypes
   simp only [List.map_append, List.map_cons, List.map_nil, optList_map]
   cases f <;> rfl
@@ -240,8 +252,9 @@ theorem coreTypes_eq (m : DumpModel) (f : MemForm) :
 theorem coreTypes_sublist (m : DumpModel) (f : MemForm) : List.Sublist (coreTypes m f) (allTypes f) := by
   rw [coreTypes_eq]
   unfold allTypes
-  exact (((((List.Sublist.refl _).append (optList_sublist_const _ _)).append (optList_sublist_const _ _)).append
-    (optList_sublist_const _ _)).append (optList_sublist_const _ _)).append (optList_sublist_const _ _)
+  exact ((((((List.Sublist.refl _).append (optList_sublist_const _ _)).append (optList_sublist_const _ _)).append
+    (optList_sublist_const _ _)).append (optList_sublist_const _ _)).append (optList_sublist_const _ _)).append
+    (optList_sublist_const _ _)
 
 theorem allTypes_nodup (f : MemForm) : (allTypes f).Nodup := by cases f <;> decide
 
@@ -394,10 +407,14 @@ theorem core_linuxMaps {x : List MapEntry} (h : m.linuxMaps = some x) : lastOf S
     some (encLinuxMaps x) :=
   core_of_mem m e f (by simp [coreStreams, optList, h])
 
+theorem core_crashpad {x : MCrashpad} (h : m.crashpad = some x) : lastOf ST_CRASHPAD (coreStreams m e f) =
+    some (encCrashpad e (oobOffsets m f).crashpad x) :=
+  core_of_mem m e f (by simp [coreStreams, optList, h])
+
 /-- the optional streams: (present?, type) -/
 def optTypes (m : DumpModel) : List (Bool × Nat) :=
   [(m.exception.isSome, ST_EXCEPTION), (m.sysInfo.isSome, ST_SYSTEM_INFO), (m.miscInfo.isSome, ST_MISC_INFO),
-   (m.handles.isSome, ST_HANDLE_DATA_STREAM), (m.linuxMaps.isSome, ST_LINUX_MAPS)]
+   (m.handles.isSome, ST_HANDLE_DATA_STREAM), (m.linuxMaps.isSome, ST_LINUX_MAPS), (m.crashpad.isSome, ST_CRASHPAD)]
 
 theorem mem_optList_const {α : Type} {o : Option α} {t x : Nat} : x ∈ optList o (fun _ => t) ↔ (o.isSome = true ∧ x = t) := by
   cases o <;> simp [optList]
@@ -407,20 +424,22 @@ theorem mem_coreTypes {t : Nat} : t ∈ coreTypes m f ↔ t ∈ fixedTypes f ∨
   simp only [List.mem_append, mem_optList_const, optTypes, List.mem_cons, Prod.mk.injEq, List.not_mem_nil, or_false,
     or_assoc]
   constructor
-  · rintro (h | ⟨h1, h2⟩ | ⟨h1, h2⟩ | ⟨h1, h2⟩ | ⟨h1, h2⟩ | ⟨h1, h2⟩)
+  · rintro (h | ⟨h1, h2⟩ | ⟨h1, h2⟩ | ⟨h1, h2⟩ | ⟨h1, h2⟩ | ⟨h1, h2⟩ | ⟨h1, h2⟩)
     · exact .inl h
     · exact .inr (.inl ⟨h1.symm, h2⟩)
     · exact .inr (.inr (.inl ⟨h1.symm, h2⟩))
     · exact .inr (.inr (.inr (.inl ⟨h1.symm, h2⟩)))
     · exact .inr (.inr (.inr (.inr (.inl ⟨h1.symm, h2⟩))))
-    · exact .inr (.inr (.inr (.inr (.inr ⟨h1.symm, h2⟩))))
-  · rintro (h | ⟨h1, h2⟩ | ⟨h1, h2⟩ | ⟨h1, h2⟩ | ⟨h1, h2⟩ | ⟨h1, h2⟩)
+    · exact .inr (.inr (.inr (.inr (.inr (.inl ⟨h1.symm, h2⟩)))))
+    · exact .inr (.inr (.inr (.inr (.inr (.inr ⟨h1.symm, h2⟩)))))
+  · rintro (h | ⟨h1, h2⟩ | ⟨h1, h2⟩ | ⟨h1, h2⟩ | ⟨h1, h2⟩ | ⟨h1, h2⟩ | ⟨h1, h2⟩)
     · exact .inl h
     · exact .inr (.inl ⟨h1.symm, h2⟩)
     · exact .inr (.inr (.inl ⟨h1.symm, h2⟩))
     · exact .inr (.inr (.inr (.inl ⟨h1.symm, h2⟩)))
     · exact .inr (.inr (.inr (.inr (.inl ⟨h1.symm, h2⟩))))
-    · exact .inr (.inr (.inr (.inr (.inr ⟨h1.symm, h2⟩))))
+    · exact .inr (.inr (.inr (.inr (.inr (.inl ⟨h1.symm, h2⟩)))))
+    · exact .inr (.inr (.inr (.inr (.inr (.inr ⟨h1.symm, h2⟩)))))
 
 theorem no_memory64_in_mem : ST_MEMORY64_LIST ∉ coreTypes m .mem := by
   intro h
@@ -435,35 +454,48 @@ theorem no_exception (h : m.exception = none) : ST_EXCEPTION ∉ coreTypes m f :
   rintro (h0 | h1)
   · cases f <;> exact absurd h0 (by decide)
   · simp [optTypes, h, ST_EXCEPTION, ST_SYSTEM_INFO, ST_SystemInfoStream, ST_MISC_INFO, ST_MiscInfoStream,
-      ST_HANDLE_DATA_STREAM, ST_HandleDataStream, ST_LINUX_MAPS, ST_LinuxMaps] at h1
+      ST_HANDLE_DATA_STREAM, ST_HandleDataStream, ST_LINUX_MAPS, ST_LinuxMaps, ST_CRASHPAD,
+      ST_CrashpadInfoStream] at h1
 
 theorem no_sysInfo (h : m.sysInfo = none) : ST_SYSTEM_INFO ∉ coreTypes m f := by
   rw [mem_coreTypes]
   rintro (h0 | h1)
   · cases f <;> exact absurd h0 (by decide)
   · simp [optTypes, h, ST_EXCEPTION, ST_SYSTEM_INFO, ST_SystemInfoStream, ST_MISC_INFO, ST_MiscInfoStream,
-      ST_HANDLE_DATA_STREAM, ST_HandleDataStream, ST_LINUX_MAPS, ST_LinuxMaps] at h1
+      ST_HANDLE_DATA_STREAM, ST_HandleDataStream, ST_LINUX_MAPS, ST_LinuxMaps, ST_CRASHPAD,
+      ST_CrashpadInfoStream] at h1
 
 theorem no_miscInfo (h : m.miscInfo = none) : ST_MISC_INFO ∉ coreTypes m f := by
   rw [mem_coreTypes]
   rintro (h0 | h1)
   · cases f <;> exact absurd h0 (by decide)
   · simp [optTypes, h, ST_EXCEPTION, ST_SYSTEM_INFO, ST_SystemInfoStream, ST_MISC_INFO, ST_MiscInfoStream,
-      ST_HANDLE_DATA_STREAM, ST_HandleDataStream, ST_LINUX_MAPS, ST_LinuxMaps] at h1
+      ST_HANDLE_DATA_STREAM, ST_HandleDataStream, ST_LINUX_MAPS, ST_LinuxMaps, ST_CRASHPAD,
+      ST_CrashpadInfoStream] at h1
 
 theorem no_handles (h : m.handles = none) : ST_HANDLE_DATA_STREAM ∉ coreTypes m f := by
   rw [mem_coreTypes]
   rintro (h0 | h1)
   · cases f <;> exact absurd h0 (by decide)
   · simp [optTypes, h, ST_EXCEPTION, ST_SYSTEM_INFO, ST_SystemInfoStream, ST_MISC_INFO, ST_MiscInfoStream,
-      ST_HANDLE_DATA_STREAM, ST_HandleDataStream, ST_LINUX_MAPS, ST_LinuxMaps] at h1
+      ST_HANDLE_DATA_STREAM, ST_HandleDataStream, ST_LINUX_MAPS, ST_LinuxMaps, ST_CRASHPAD,
+      ST_CrashpadInfoStream] at h1
 
 theorem no_linuxMaps (h : m.linuxMaps = none) : ST_LINUX_MAPS ∉ coreTypes m f := by
   rw [mem_coreTypes]
   rintro (h0 | h1)
   · cases f <;> exact absurd h0 (by decide)
   · simp [optTypes, h, ST_EXCEPTION, ST_SYSTEM_INFO, ST_SystemInfoStream, ST_MISC_INFO, ST_MiscInfoStream,
-      ST_HANDLE_DATA_STREAM, ST_HandleDataStream, ST_LINUX_MAPS, ST_LinuxMaps] at h1
+      ST_HANDLE_DATA_STREAM, ST_HandleDataStream, ST_LINUX_MAPS, ST_LinuxMaps, ST_CRASHPAD,
+      ST_CrashpadInfoStream] at h1
+
+theorem no_crashpad (h : m.crashpad = none) : ST_CRASHPAD ∉ coreTypes m f := by
+  rw [mem_coreTypes]
+  rintro (h0 | h1)
+  · cases f <;> exact absurd h0 (by decide)
+  · simp [optTypes, h, ST_EXCEPTION, ST_SYSTEM_INFO, ST_SystemInfoStream, ST_MISC_INFO, ST_MiscInfoStream,
+      ST_HANDLE_DATA_STREAM, ST_HandleDataStream, ST_LINUX_MAPS, ST_LinuxMaps, ST_CRASHPAD,
+      ST_CrashpadInfoStream] at h1
 
 end core
 
